@@ -220,6 +220,9 @@ func Replay(sc Scenario, p []Op, checkStates bool) (Run, *Failure, int) {
 // operation marked as the operation under test.
 func ReplayFull(sc Scenario, p []Op) (Run, *Failure, int) {
 	r := sc.New()
+	if len(p) == 0 {
+		return r, r.Check(), -1
+	}
 	for i, o := range p {
 		if fz, ok := r.(Finalizer); ok && i == len(p)-1 {
 			fz.BeginFinal()
